@@ -17,9 +17,9 @@ NAME_CHARS = "abcdefghijklmnopqrstuvwxyz0123456789!#$%&'*+-.^_`|~"
 NOT_NAMES = {"host", "connection", "keep-alive", "proxy-connection", "transfer-encoding", "upgrade", "content-length"}
 # long values: the Lean driver's cost is quadratic in the length of a value (the model's Huffman / string path over
 # `List Nat`: 1 000 bytes 0.1-0.6 s, 4 096 bytes 0.5-9 s, 16 384 printable bytes 6.5 s, 16 384 high bytes > 60 s), so
-# the quick tier stops at 4 096 bytes (printable from 2 048 on) and the thorough tier at 16 384 printable bytes;
+# the quick tier stops at 4 096 bytes (printable from 2 048 on) and the thorough tier at 8 192 printable bytes;
 # 65 536 / 70 000 bytes were run through the real code alone (delivered identically, see DESIGN)
-LONG_VALUES = {"quick": [1000, 1000, 1500, 2048, 4096], "thorough": [1000, 1500, 2048, 4096, 8192, 16384]}
+LONG_VALUES = {"quick": [1000, 1000, 1500, 2048, 4096], "thorough": [1000, 1500, 2048, 4096, 8192]}
 VALUE_BYTES = [0x09] + list(range(0x20, 0x7f)) + list(range(0x80, 0x100))
 PRINTABLE = list(range(0x20, 0x7f))
 # interim responses (RFC 9110 15.2; 101 is not used in HTTP/3)
@@ -79,9 +79,15 @@ class C01(Prop):
                   "or one transport event")
     rule = ("two real endpoints (client, server) over SimQuic joined by a relay that moves bytes only when the script says "
             "so; messages from alphabets of methods incl. CONNECT (authority-form target) and extended CONNECT (:protocol, "
-            "ec=1 on both endpoints), absolute-form targets, duplicate header names, high-byte values, bodies 0..64 KiB in "
-            "arbitrary send pieces incl. empty ones (64 KiB in 8..60 pieces in the thorough tier), trailers or not; grease "
-            "on/off per endpoint; a PRODUCT of: sender back-pressure via write credit on the client and/or the server (heads, "
+            "ec=1 on both endpoints), absolute-form targets, origin-form targets whose authority is in Host, field "
+            "sections of 0..4 fields and (8 % of the sections) 5..40 fields, names from ten fixed ones or generated tokens "
+            "(lower-case letters, digits, !#$%&'*+-.^_`|~), duplicate names, values of any legal bytes with leading / "
+            "trailing SP and HTAB and inner HTAB, now and then a value of 1 000..4 096 bytes (8 192 in the thorough tier; "
+            "the Lean driver's cost is quadratic in the value length), bodies 0..64 KiB in arbitrary send pieces incl. "
+            "empty ones (64 KiB whole or in 8..60 pieces: 4 % of the messages in the thorough tier, of one case in eight "
+            "in the quick tier), trailers or not; interim responses (1xx, one send_response / recv_response per head) "
+            "before the final one; SETTINGS relayed only after the first request was sent / met / read; a further "
+            "request sent after a response; grease on/off per endpoint; a PRODUCT of: sender back-pressure via write credit on the client and/or the server (heads, "
             "DATA and trailers partially written) x readers posted before / while / after the data arrives x relay whole / in "
             "random 1..7-byte pieces / partial per stream x reader shapes (one loop; recv_data, split mid-body, loop on the "
             "receive half; body to its end, split with the trailers remembered, recv_trailers on the receive half; split "
@@ -327,7 +333,7 @@ class C01(Prop):
         for _ in range(n):
             v = self.value(rng, rng.choice([0, 1, 2, 5, 20]) if many else None)
             hs.append("%s=%s" % (self.name(rng), v.hex() if v else "-"))
-        if long_ok and rng.random() < 0.012:
+        if long_ok and rng.random() < 0.003:
             v = self.value(rng, rng.choice(LONG_VALUES[self.tier]))
             hs.insert(rng.randrange(0, len(hs) + 1), "%s=%s" % (self.name(rng), v.hex()))
         return ";".join(hs) if hs else "-"
